@@ -18,6 +18,7 @@ REPLAYS = os.path.join(VERIF, "replays")
 EVIDENCE = os.path.join(VERIF, "evidence")
 GOENV = dict(os.environ, GOFLAGS="-mod=mod", GOPROXY="off", GOSUMDB="off", GOTOOLCHAIN="local",
              CGO_ENABLED="1")
+STREAM_TIMEOUT = int(os.environ.get("VERIF_STREAM_TIMEOUT", "1500"))
 ALLOWED_AXIOMS = {"propext", "Classical.choice", "Quot.sound"}
 FORBIDDEN = re.compile(r"\b(sorry|admit|native_decide|bv_decide|implemented_by)\b|^\s*axiom\s|\bunsafe\s|maxHeartbeats\s+0")
 
@@ -205,15 +206,20 @@ def run_stream(spec, workdir, idx, harness, driver="driver"):
         cmd = [harness, "sock", "-bin", server] + [str(a) for a in spec["args"]]
     else:
         cmd = [harness, spec["kind"]] + [str(a) for a in spec["args"]]
-    with open(lines, "w") as lf:
-        p = subprocess.run(cmd, stdout=lf, stderr=subprocess.PIPE, text=True)
+    try:
+        with open(lines, "w") as lf:
+            p = subprocess.run(cmd, stdout=lf, stderr=subprocess.PIPE, text=True, timeout=STREAM_TIMEOUT)
+    except subprocess.TimeoutExpired:
+        # a stream that does not end is itself a finding (something hangs); no input can be named
+        return dict(spec=spec, lines=lines, verd=None,
+                    error=f"the stream did not finish within {STREAM_TIMEOUT} s (the implementation hangs): " + " ".join(map(str, cmd[1:])))
     if p.returncode != 0:
-        return dict(spec=spec, lines=lines, verd=None, error=p.stderr[-2000:])
+        return dict(spec=spec, lines=lines, verd=None, error=p.stderr[-2000:] or f"the harness exited with status {p.returncode}")
     drv = os.path.join(LEAN, ".lake", "build", "bin", spec.get("driver", driver))
     with open(lines) as lf, open(verd, "w") as vf:
         p2 = subprocess.run([drv], stdin=lf, stdout=vf, stderr=subprocess.PIPE, text=True)
     if p2.returncode != 0:
-        return dict(spec=spec, lines=lines, verd=None, error="driver: " + p2.stderr[-2000:])
+        return dict(spec=spec, lines=lines, verd=None, error="driver: " + (p2.stderr[-2000:] or f"exit status {p2.returncode}"))
     return dict(spec=spec, lines=lines, verd=verd, error=None, stderr=p.stderr[-4000:])
 
 
